@@ -47,6 +47,8 @@ pub struct Replayer {
     pub tamper_seed: u64,
     pub observer: Option<crate::observer::Observer>,
     pub jitter: u64,
+    /// feature "newid" of the behaviour: every third commit changes the committer's signing key
+    pub new_identity_commits: bool,
 }
 
 macro_rules! viol {
@@ -57,7 +59,7 @@ macro_rules! viol {
 
 impl Replayer {
     pub fn new(w: World, deep: bool) -> Self {
-        Replayer { w, viols: vec![], step: 0, states: vec![], deep, faults: false, pairs: false, reloaded: Default::default(), tamper: 0, tamper_exhaustive: false, tamper_seed: 1, observer: None, jitter: crate::observer::NO_JITTER }
+        Replayer { w, viols: vec![], step: 0, states: vec![], deep, faults: false, pairs: false, reloaded: Default::default(), tamper: 0, tamper_exhaustive: false, tamper_seed: 1, observer: None, jitter: crate::observer::NO_JITTER, new_identity_commits: false }
     }
 
     /// Compare the real group of `party` with the expected projection `post`.
@@ -1167,18 +1169,22 @@ impl Replayer {
                 let mut c = self.w.parties[p].group.as_ref().unwrap().clone();
                 c.verif_tamper_next_commit(kind);
                 let kps2 = kps.clone();
-                let r = std::panic::catch_unwind(std::panic::AssertUnwindSafe(|| build_commit(&mut c, &byval, kps2, suite, false)));
+                let r = std::panic::catch_unwind(std::panic::AssertUnwindSafe(|| build_commit(&mut c, &byval, kps2, suite, false, None)));
                 if let Ok(Ok((o, _))) = r {
                     if o.contains_update_path || kind == "stale-confirmation-tag" { forged.push((kind.to_string(), o.commit_message)); }
                 }
             }
             self.w.rec.set(true, false);
         }
+        // every third commit also changes the committer's signing key (same identity)
+        let new_identity = if self.new_identity_commits && (self.w.commits.len() + 1) % 3 == 0 {
+            self.w.cs(p).signature_key_generate().ok().map(|(sk, pk)| (sk, mls_rs::identity::SigningIdentity::new(mls_rs::identity::basic::BasicCredential::new(p.as_bytes().to_vec()).into_credential(), pk)))
+        } else { None };
         let mark = self.w.rec.len();
         let party = self.w.parties.get_mut(p).unwrap();
         let g = party.group.as_mut().unwrap();
         let base_epoch = g.current_epoch();
-        let r = build_commit(g, &byval, kps, suite, detached);
+        let r = build_commit(g, &byval, kps, suite, detached, new_identity);
         let evs = self.w.rec.since(mark);
         match r {
             Err(e) => classify(&e),
@@ -1532,9 +1538,11 @@ pub const CUSTOM_PROPOSAL: u16 = 0xF0F1;
 pub const GCE_EXT: mls_rs::extension::ExtensionType = mls_rs::extension::ExtensionType::new(0xF0F0);
 
 /// CommitBuilder calls for the by-value proposals of a model commit
-pub fn build_commit(g: &mut mls_rs::Group<Cfg>, byval: &[Value], kps: Vec<Option<MlsMessage>>, suite: mls_rs::CipherSuite, detached: bool)
+pub fn build_commit(g: &mut mls_rs::Group<Cfg>, byval: &[Value], kps: Vec<Option<MlsMessage>>, suite: mls_rs::CipherSuite, detached: bool,
+    new_identity: Option<(mls_rs_core::crypto::SignatureSecretKey, mls_rs::identity::SigningIdentity)>)
     -> Result<(mls_rs::group::CommitOutput, Option<mls_rs::group::CommitSecrets>), mls_rs::error::MlsError> {
     let mut b = g.commit_builder();
+    if let Some((sk, id)) = new_identity { b = b.set_new_signing_identity(sk, id); }
     for (it, kp) in byval.iter().zip(kps.into_iter()) {
         b = match s(it, "kind") {
             "psk" => b.add_external_psk(mls_rs::psk::ExternalPskId::new(s(it, "id").as_bytes().to_vec()))?,
@@ -1618,6 +1626,7 @@ pub fn run_behaviour(b: &Value, opts: Opts, deep: bool, faults: bool, tamper: (u
     r.tamper_exhaustive = tamper.1;
     r.tamper_seed = tamper.2;
     r.jitter = cfg.get("jit").and_then(|x| x.as_u64()).unwrap_or(crate::observer::NO_JITTER);
+    r.new_identity_commits = cfg.get("features").and_then(|f| f.as_array()).map(|f| f.iter().any(|x| x == "newid")).unwrap_or(false);
     r.w.rec.set(true, false);
     let steps = b.get("steps").and_then(|x| x.as_array()).cloned().unwrap_or_default();
     let mut run = 0;
